@@ -24,14 +24,17 @@ CLAIMED = {
         technique="Coq proof (Z arithmetic: mask lemmas + nia) + boundary-dense model/implementation correspondence",
         design="3 C16"),
     "C17": dict(
-        text="Proof (partial): Coq theorems C17_terminates (forall byte strings: parse_frames never exhausts its length+1 fuel, i.e. the Python loop terminates, "
-             "because every frame class yields length >= 1 on the regenerated dispatch table) and C17_no_invention (every data field of every returned frame is a "
-             "contiguous piece of the packet); closed under the global context. The exact-split (round-trip) half is decided in this revision by the structured "
-             "stream (reference encoder, all varint widths and flag combinations) run through model and implementation; its Coq theorem is future work.",
+        text="Proof: Coq theorems C17_terminates (forall byte strings: parse_frames never exhausts its length+1 fuel, i.e. the Python loop terminates, because every frame "
+             "class yields length >= 1 on the regenerated dispatch table), C17_no_invention (every data field of every returned frame is a contiguous piece of the packet), and "
+             "the exact split: C17_varint_roundtrip (values encoded in 1, 2, 4 or 8 bytes are read back with exactly that length), C17_fields_roundtrip (any field sequence "
+             "fitting a class's field program, anywhere in a packet, is read back exactly and consumes exactly its bytes), C17_frame_roundtrip (every frame class given by a "
+             "field program, STREAM with all flag combinations among them, followed by anything), C17_payload_roundtrip (a payload that is a sequence of such frames, dispatched "
+             "through the regenerated table, parses to exactly the frames in order). Closed under the global context. ACK, PADDING, PING, HANDSHAKE_DONE, PATH_*, DATAGRAM "
+             "and the generic fallback have no round-trip theorem: the reference encoder covers them through model and implementation.",
         note="Trusted: Coq kernel; py2coq G1 (dispatch dict, class constants); hand-written models of the 22 frame constructors tied by correspondence (structured + "
              "malformed streams, every byte string of length <= 2); reference encoder tools/ref/quic_frames_ref.py.",
-        technique="Coq proof (invariant on the reader state, well-founded induction on payload length) + model/implementation correspondence",
-        design="3 C17"),
+        technique="Coq proof (invariant on the reader state; big-endian/varint arithmetic; induction over field programs and over the payload) + model/implementation correspondence",
+        design="I.4 C17"),
     "C11": dict(
         text="Proof: Coq theorems C11_tcp / C11_udp: for every well-formed abstract packet (IPv4/IPv6, any length, any bytes) the model of calculate_checksum_* "
              "answers exactly RFC 1071 verification (one's-complement sum of pseudo-header and segment including the checksum field is 0xFFFF), spec given as a "
